@@ -147,43 +147,57 @@ def python_hostile_names(e: Any) -> set:
     return idents_used(e) & (A.PY_KEYWORDS | A.ACTIVATION_ATTRS)
 
 
+def boolish(b: Any) -> bool:
+    """mirror of Lean `Expr.boolish`: syntactically boolean-valued (BoolType or error)"""
+    k = b[0]
+    if k == "lit":
+        return b[1] == "bool"
+    if k == "un":
+        return b[1] == "!"
+    if k == "bin":
+        return b[1] in A.REL
+    if k in ("or", "and"):
+        return boolish(b[1]) and boolish(b[2])
+    if k == "cond":
+        return boolish(b[2]) and boolish(b[3])
+    if k == "macro":
+        return b[1] == "exists_one" or (b[1] in ("all", "exists") and boolish(b[4]))
+    if k == "dyn":
+        return boolish(b[1])
+    return False
+
+
 def nonbool_macro_body(e: Any) -> bool:
     """an all()/exists() whose body is not syntactically boolean-valued"""
-    def boolish(b):
-        k = b[0]
-        if k in ("or", "and", "has"):
-            return True
-        if k == "un" and b[1] == "!":
-            return True
-        if k == "bin" and b[1] in A.REL:
-            return True
-        if k == "lit" and b[1] == "bool":
-            return True
-        if k == "macro" and b[1] in ("all", "exists", "exists_one"):
-            return True
-        if k == "cond":
-            return boolish(b[2]) and boolish(b[3])
-        if k == "dyn":
-            return boolish(b[1])
-        if k in ("mcall", "call"):
-            name = b[2] if k == "mcall" else b[1]
-            return name in ("startsWith", "endsWith", "contains", "matches", "bool")
-        return False
     return any(n[0] == "macro" and n[1] in ("all", "exists") and not boolish(n[4]) for n in A.walk(e))
 
 
 def function_object_used(e: Any, bound: set) -> bool:
-    """an identifier that is not a variable but names a base function is used as a value"""
+    """a function/type object is used as a value by an operator: an identifier that is not a variable but names a
+    base function, or the result of type(), is indexed or otherwise operated on (e.g. `list[1/0]` builds a
+    typing.GenericAlias in the interpreter)"""
     fns = base_function_names()
-    scope = set(bound)
-    def go(n, sc):
+
+    def typeobj(n, sc):
         k = n[0]
         if k == "id":
             return n[1] not in sc and n[1] in fns
+        if k == "call":
+            return n[1] == "type"
+        if k == "dyn":
+            return typeobj(n[1], sc)
+        if k == "cond":
+            return typeobj(n[2], sc) or typeobj(n[3], sc)
+        return False
+
+    def go(n, sc):
+        k = n[0]
+        if k == "idx" and typeobj(n[1], sc):
+            return True
         if k == "macro":
             return go(n[2], sc) or go(n[4], sc | {n[3]})
         return any(go(c, sc) for c in A.children(n))
-    return go(e, scope)
+    return go(e, set(bound))
 
 
 # ------------------------------------------------------------------------------------------
